@@ -416,7 +416,10 @@ func (wf *Workflow[I, O]) compile(ctx context.Context, options *graphCompileOpti
 				}
 				wf.dependencies[END][wb.fromNodeKey] = branchDependency
 			} else {
-				n := wf.workflowNodes[endNode]
+				n, ok := wf.workflowNodes[endNode]
+				if !ok {
+					return nil, fmt.Errorf("branch end node[%s] of node[%s] has not been added", endNode, wb.fromNodeKey)
+				}
 				n.dependencySetter(wb.fromNodeKey, branchDependency)
 			}
 		}
